@@ -59,7 +59,15 @@ func (d *dialer) Dial() error {
 		return nil
 	}
 	d.Unlock()
-	return d.dial(false)
+	if err := d.dial(false); err != nil {
+		// A failed synchronous dial schedules no redial, so the dialer
+		// is idle again: let the caller correct the cause and retry.
+		d.Lock()
+		d.active = false
+		d.Unlock()
+		return err
+	}
+	return nil
 }
 
 func (d *dialer) Close() error {
